@@ -9,6 +9,7 @@ Semantics assumed (reported in evidence): python int and C integers are mathemat
 obligations at stores into C-typed variables/arrays; double is the real field; distinct array parameters do
 not alias unless a contract builds them from the same Ref."""
 import ast
+import os
 import re
 from fractions import Fraction
 
@@ -18,6 +19,33 @@ from .frontend import OutOfSubset, CType, load
 from .values import *
 from .values import _counter
 from . import spec as S
+
+
+_QCACHE = {}
+
+
+def _has_quantifier(f):
+    if not z3.is_expr(f):
+        return False
+    key = f.get_id()
+    hit = _QCACHE.get(key)
+    if hit is not None and hit[0].eq(f):
+        return hit[1]
+    seen = set()
+    stack = [f]
+    res = False
+    while stack:
+        e = stack.pop()
+        i = e.get_id()
+        if i in seen:
+            continue
+        seen.add(i)
+        if z3.is_quantifier(e):
+            res = True
+            break
+        stack.extend(e.children())
+    _QCACHE[key] = (f, res)
+    return res
 
 
 class Obligation:
@@ -140,10 +168,18 @@ class Executor:
             return True
         s = z3.Solver()
         s.set('timeout', self.contract.options.get('prune_ms', 150))
+        # pruning uses the quantifier-free part of the path condition only (an over-approximation: fewer paths are pruned, none
+        # wrongly); satisfiable queries with quantifiers over arrays can make z3 build models past its time limit
         for a in st.pc:
-            s.add(a)
-        if extra is not None:
+            if not _has_quantifier(a):
+                s.add(a)
+        if extra is not None and not _has_quantifier(extra):
             s.add(extra)
+        if os.environ.get('PYVC_TRACE'):
+            with open('/var/tmp/pyvc-trace-%d.log' % os.getpid(), 'a') as tf:
+                tf.write('feasible %d\n' % len(st.pc))
+            if os.environ.get('PYVC_TRACE') == 'dump':
+                open('/var/tmp/pyvc-last-%d.smt2' % os.getpid(), 'w').write(s.to_smt2())
         return s.check() != z3.unsat
 
     # ------------------------------------------------------------------ spec views
@@ -207,6 +243,10 @@ class Executor:
             return len(v) != 0
         if isinstance(v, str):
             return len(v) != 0
+        sv = self.as_set(st, v, node)
+        if sv is not None:
+            # a set is true iff it is not empty
+            return sv[0] != z3.EmptySet(sv[1])
         if isinstance(v, Ref):
             c = st.heap[v.id]
             if isinstance(c, ListContent):
@@ -672,6 +712,17 @@ class Executor:
                 and not getattr(c, 'readonly', False):
             pre = [self.index_value(st, c, i, c.shape[k], node, 'array axis %d' % k) for k, i in enumerate(ix[:nlead])]
             return VArrView(base, pre)
+        if isinstance(ix[0], slice) and ix[0].start is not None and ix[0].step is None and \
+                all(isinstance(i, slice) and i.start is None and i.stop is None and i.step is None for i in ix[1:]):
+            # a[lo:hi] on the leading axis: python clips non-negative bounds to the length; negative bounds (counted from the
+            # end) are excluded by an obligation
+            n = to_z3(c.shape[0])
+            lo = to_z3(ix[0].start)
+            hi = to_z3(ix[0].stop) if ix[0].stop is not None else n
+            self.oblige(st, 'safe:slice', node, z3.And(lo >= 0, hi >= 0), 'slice bounds are non-negative (no wrap-around)')
+            lo_c = z3.If(lo < n, lo, n)
+            hi_c = z3.If(hi < lo_c, lo_c, z3.If(hi < n, hi, n))
+            return VRowRange(base, lo_c, hi_c)
         newshape, binders, sel = [], [], []
         for k, i in enumerate(ix):
             if isinstance(i, slice):
@@ -997,6 +1048,8 @@ class Executor:
                 return slice(lo, hi, step)
             if (lo is None or (isinstance(lo, int) and lo == 0)) and step is None and is_int(hi):
                 return slice(None, hi, None)     # a[:n] with symbolic n
+            if step is None and is_int(lo) and (hi is None or is_int(hi)):
+                return slice(lo, hi, None)       # a[lo:hi] with symbolic bounds (leading axis: see array_slice)
             return VOpaque('symbolic slice')     # only usable on unmodelled values
         if isinstance(node, ast.Tuple):
             return VTuple(self.ev_index(e, st) for e in node.elts)
@@ -1081,6 +1134,9 @@ class Executor:
 
     def call_method(self, st, obj, name, args, kwargs, node):
         c = st.heap[obj.id]
+        if isinstance(c, ArrContent) and getattr(c, 'sparse_model', False) and name in ('tocsr', 'tocsc', 'tolil', 'tocoo', 'toarray'):
+            # scipy.sparse format conversions keep the matrix (library model: a sparse matrix is its dense array of values)
+            return obj
         if isinstance(c, ListContent):
             if name == 'append':
                 c.items.append(args[0])
@@ -1163,7 +1219,10 @@ class Executor:
                     flat = flat * c.shape[k] + i if k else i
                 for k in range(len(ix), c.ndim):
                     flat = flat * c.shape[k]
-                return VPtr(base, flat)
+                p = VPtr(base, flat)
+                if len(ix) == c.ndim:
+                    p.midx = list(ix)       # structured form of the same address (for frame contracts of callees writing a row)
+                return p
             if isinstance(base, VPtr):
                 return VPtr(base.ref, self.binop(st, ast.Add(), base.offset, idx, node))
         raise OutOfSubset('address-of at line %d' % node.lineno)
@@ -1430,6 +1489,20 @@ class Executor:
             return [(st, None)]
         if isinstance(s.value, ast.Call) and isinstance(s.value.func, ast.Name) and s.value.func.id in ('print',):
             return [(st, None)]
+        if isinstance(s.value, ast.Yield):
+            # generator: the yielded values are collected in the ghost sequence `yielded`
+            v = self.ev(s.value.value, st) if s.value.value is not None else None
+            c = st.heap[st.env['yielded'].id]
+            if isinstance(v, VRowRange):
+                z = Pair.mk(to_z3(v.lo), to_z3(v.hi))
+            elif is_int(v):
+                z = Pair.mk(to_z3(v), to_z3(v))
+            else:
+                raise OutOfSubset('yield of %r at line %d' % (v, s.lineno))
+            c.data = z3.Store(c.data, to_z3(c.length), z)
+            c.length = c.length + 1
+            self.ghost_hook(s, st)
+            return [(st, None)]
         self.ev(s.value, st)
         self.ghost_hook(s, st)
         return [(st, None)]
@@ -1623,6 +1696,9 @@ class Executor:
                     self.cur_callees = saved
                 wr = {r[0] for r in roots}
                 return {k for k, nme in enumerate(names) if nme in wr}
+            if callable(cs) and hasattr(cs, 'writes'):
+                # python spec callables may declare the positions of the arguments they write through
+                return set(cs.writes)
         except KeyError:
             return None
         return None
@@ -1722,8 +1798,12 @@ class Executor:
                 lo, hi, step = args[0], args[1], 1
             else:
                 lo, hi, step = args
-            if not isinstance(step, int) or step == 0:
-                raise OutOfSubset('range with symbolic step at line %d' % s.lineno)
+            if not isinstance(step, int):
+                # symbolic step: must be positive (range() raises ValueError for 0; negative steps are not modelled)
+                self.oblige(st, 'safe:range-step', s, to_z3(step) >= 1, 'range step is at least 1 (ValueError for 0)')
+                return lo, hi, step
+            if step == 0:
+                raise OutOfSubset('range with step 0 at line %d' % s.lineno)
             if rev:
                 if step != 1:
                     raise OutOfSubset('reversed range with step')
@@ -1880,6 +1960,8 @@ class Executor:
         tag = 'loop%d' % k
         body = s.body
         names, roots = self.assigned_names(body)
+        if any(isinstance(n, ast.Yield) for stmt in body for n in ast.walk(stmt)):
+            roots = set(roots) | {('yielded',)}
         if bind_fn is not None:
             for e in ast.walk(s.target):
                 if isinstance(e, ast.Name):
@@ -1953,11 +2035,15 @@ class Executor:
             h.env.update(bind)
             if rng is not None:
                 c = h.env[ctr]
-                if step > 0:
+                symstep = not isinstance(step, int)
+                if symstep:
+                    # symbolic positive step: only lo <= c is assumed (the counter may overshoot hi by less than the step)
+                    self.assume(h, to_z3(lo) <= c)
+                elif step > 0:
                     self.assume(h, z3.And(to_z3(lo) <= c, z3.Or(c <= to_z3(hi), c == to_z3(lo))))
                 else:
                     self.assume(h, z3.And(to_z3(lo) >= c, z3.Or(c >= to_z3(hi), c == to_z3(lo))))
-                if abs(step) != 1:
+                if not symstep and abs(step) != 1:
                     self.assume(h, (c - to_z3(lo)) % abs(step) == 0)
             vh = self.view(h)
             invs = S.labelled(spec.inv(vh) if spec.inv else [], 'inv')
@@ -1972,7 +2058,7 @@ class Executor:
             # ---- condition
             if rng is not None:
                 c = h.env[ctr]
-                cond = (c < to_z3(hi)) if step > 0 else (c > to_z3(hi))
+                cond = (c < to_z3(hi)) if (symstep or step > 0) else (c > to_z3(hi))
             else:
                 cond = None
             # body path
@@ -2018,8 +2104,10 @@ class Executor:
                     # at exit the counter equals hi when the loop ran; python leaves the loop variable at
                     # its last value -- modelled as `hi - step` when the range is non-empty
                     c = he.env[ctr]
-                    nonempty = (to_z3(lo) < to_z3(hi)) if step > 0 else (to_z3(lo) > to_z3(hi))
-                    if abs(step) == 1:
+                    nonempty = (to_z3(lo) < to_z3(hi)) if (symstep or step > 0) else (to_z3(lo) > to_z3(hi))
+                    if symstep:
+                        he.env[ctr] = z3.Int(fresh_name(ctr + '_after'))    # value of the loop variable after the loop: not modelled
+                    elif abs(step) == 1:
                         self.assume(he, z3.Implies(nonempty, c == to_z3(hi)))
                         self.assume(he, z3.Implies(z3.Not(nonempty), c == to_z3(lo)))
                     he.env['__loopend_' + ctr] = c
@@ -2065,8 +2153,17 @@ class Executor:
         a = fn.args
         names = [x.arg for x in a.args]
         if names and names[0] == 'self' and len(args) < len(names) and 'self' not in kwargs:
-            # method called through self.: bind self from the caller
-            args = [st.env.get('self')] + list(args)
+            # method call: bind self to the receiver (self.m(...) -> the caller's self, obj.m(...) -> obj)
+            recv = st.env.get('self')
+            f = getattr(node, 'func', None)
+            if isinstance(f, ast.Attribute) and not (isinstance(f.value, ast.Name) and f.value.id == 'self'):
+                try:
+                    r = self.ev(f.value, st)
+                    if isinstance(r, Ref):
+                        recv = r
+                except OutOfSubset:
+                    pass
+            args = [recv] + list(args)
         env = {}
         defaults = a.defaults
         nd = len(defaults)
@@ -2197,6 +2294,11 @@ class Executor:
                     st.ctypes[(self.fn, a.arg)] = ct
         else:
             self.make_params(st)
+        if any(isinstance(n, (ast.Yield, ast.YieldFrom)) for stmt in self.fn.body for n in ast.walk(stmt)):
+            # generator function: ghost sequence of the yielded values (as pairs; a slice a[lo:hi] is the pair of its clipped bounds)
+            r = Ref('yielded')
+            st.heap[r.id] = SeqContent(z3.IntVal(0), z3.K(z3.IntSort(), Pair.mk(0, 0)), 'seq')
+            st.env['yielded'] = r
         v = View(self, st)
         req = S.labelled(self.contract.requires(v) if self.contract.requires else [], 'req')
         for (lab, f) in req:
@@ -2621,6 +2723,12 @@ def _it_product(ex, st, node, *iters):
     return VTuple(VTuple(t) for t in _itl.product(*lists))
 
 
-_MODFUNCS = {'itertools.product': _it_product, 'math.ceil': _m_ceil, 'np.linalg.norm': _np_norm, 'scipy.linalg.norm': _np_norm, 'np.sqrt': _np_sqrt,
+def _sp_lil(ex, st, node, shape, *a, **kw):
+    r = _np_alloc(0)(ex, st, node, shape)
+    st.heap[r.id].sparse_model = True
+    return r
+
+
+_MODFUNCS = {'scipy.sparse.lil_matrix': _sp_lil, 'itertools.product': _it_product, 'math.ceil': _m_ceil, 'np.linalg.norm': _np_norm, 'scipy.linalg.norm': _np_norm, 'np.sqrt': _np_sqrt,
              'np.array': _np_array, 'np.allclose': _np_allclose, 'np.empty': _np_alloc(None), 'np.zeros': _np_alloc(0), 'np.ones': _np_alloc(1),
              'np.empty_like': _np_empty_like, 'np.isscalar': _np_isscalar}
